@@ -29,6 +29,7 @@ type proc struct {
 	in      io.WriteCloser
 	out     *bufio.Reader
 	emitted map[int]bool // term ids already defined in this process
+	nq      int          // queries answered by this process
 	dead    bool
 	log     io.Writer
 }
@@ -178,7 +179,12 @@ func (s *Solver) getProc(stage int) *proc {
 		s.procs = append(s.procs, nil)
 	}
 	if p := s.procs[stage]; p != nil && !p.dead {
-		return p
+		if p.nq < 1000 || stage == 0 || stage == 3 {
+			return p
+		}
+		// cvc5 in incremental mode slows down as definitions and lemmas accumulate: recycle it
+		p.kill()
+		p.dead = true
 	}
 	var p *proc
 	switch stage {
@@ -241,6 +247,7 @@ func (s *Solver) checkOn(p *proc, assertions []*Term, vars []*Term, wantModel bo
 		fmt.Fprintf(&sb, "(assert %s)\n", Ref(a))
 	}
 	sb.WriteString("(check-sat)\n")
+	p.nq++
 	p.send(sb.String())
 	var ans string
 	for {
@@ -329,10 +336,10 @@ func (s *Solver) Check(assertions []*Term, vars []*Term, wantModel bool) (Result
 	}
 	noFP := needsNoFP(s, assertions)
 	var lastErr string
-	order := []int{0, 1, 2, 3, 4, 5}
+	order := []int{0, 1, 2, 3}
 	if noFP && s.hardArith(assertions) {
 		// multiply/divide kernels: bit-blasting stalls, the integer encoding decides
-		order = []int{1, 0, 2, 3, 4, 5}
+		order = []int{1, 0, 2, 3}
 	}
 	for _, stage := range order {
 		if stage == 1 && !noFP {
@@ -357,6 +364,42 @@ func (s *Solver) Check(assertions []*Term, vars []*Term, wantModel bool) (Result
 					return Unknown, nil, fmt.Sprintf("SOLVER-DISAGREEMENT %s=%v %s=%v", p.name, r, s.procs[alt].name, r2)
 				}
 			}
+			return r, m, p.name
+		}
+		if e != "" {
+			lastErr = e
+		}
+	}
+	// Second chance: fresh processes.  A long-lived incremental solver accumulates state (thousands of
+	// definitions, learnt lemmas) and can time out on a query a fresh process decides at once
+	// (seen: cvc5 bv-as-int, 0.08 s fresh vs. 30 s limit exceeded after ~8000 earlier queries).
+	for _, stage := range []int{1, 0} {
+		if stage == 1 && !noFP {
+			continue
+		}
+		if old := s.procs[stage]; old != nil {
+			old.kill()
+			old.dead = true
+		}
+		p := s.getProc(stage)
+		s.lastVia += p.name + "(fresh),"
+		r, m, e := s.checkOn(p, assertions, vars, wantModel)
+		if r != Unknown {
+			s.St.BySolver[p.name+"-fresh"]++
+			return r, m, p.name
+		}
+		if e != "" {
+			lastErr = e
+		}
+	}
+	// Last resort: long limits (time limits are wall-clock: on a loaded machine a 4 s query is
+	// an "unknown" on every short-limit back end).
+	for _, stage := range []int{4, 5} {
+		p := s.getProc(stage)
+		s.lastVia += p.name + ","
+		r, m, e := s.checkOn(p, assertions, vars, wantModel)
+		if r != Unknown {
+			s.St.BySolver[p.name]++
 			return r, m, p.name
 		}
 		if e != "" {
